@@ -2,6 +2,7 @@ SPECIFICATION TraceSpecObs
 CONSTANTS
   IsCase <- AnyCase
   KnownDefects = {}
+  MaxRoundsNoSoE = 50
   Log <- LogLast
 CONSTRAINT HighWater
 INVARIANTS TypeOK Inv_C17_Quorum_ExceptPaddingCounted Inv_ThresholdSane
